@@ -214,6 +214,7 @@ C04_Nodes(c, p1, p2) ==
     /\ { x[1] : x \in IBO(p1) \cup IBO(p2) } \cup { c.genes[i].src : i \in DOMAIN c.genes } \cup { c.genes[i].dst : i \in DOMAIN c.genes }
          = NodeIds(c)
     /\ IBO(p1) \cup IBO(p2) = IBO(c)
+    /\ \A i, j \in DOMAIN c.nodes : i # j => c.nodes[i].id # c.nodes[j].id          \* exactly: each node once
 (* the parents' number of traits with averaged parameters *)
 C04_Traits(c, p1, p2, avg) ==
     /\ Len(c.traits) = Len(p1.traits) /\ Len(c.traits) = Len(p2.traits)
